@@ -104,13 +104,13 @@ func paramAnnotation(pr Param) (text string, valueCol int) {
 
 func securityAnnotation(s Security) string {
 	if s.Scopes == nil {
-		return "// @Security(" + s.Scheme + ")"
+		return "// @Security(" + s.Scheme + ")" + secDescr(s)
 	}
 	qs := make([]string, len(s.Scopes))
 	for i, sc := range s.Scopes {
 		qs[i] = jsonStr(sc)
 	}
-	return "// @Security(" + s.Scheme + ", { scopes: [" + strings.Join(qs, ", ") + "] })"
+	return "// @Security(" + s.Scheme + ", { scopes: [" + strings.Join(qs, ", ") + "] })" + secDescr(s)
 }
 
 func dropped(m *Method, key string) bool {
@@ -191,6 +191,9 @@ func (p *Project) Render(opts RenderOpts) *Rendered {
 				use(f.Type)
 				if f.Descr != "" {
 					body.WriteString("\t// " + f.Descr + "\n")
+				}
+				if f.Deprecated {
+					body.WriteString("\t// @Deprecated\n")
 				}
 				var tags []string
 				if f.JSONName != "" || f.OmitEmpty {
@@ -378,7 +381,9 @@ func (p *Project) Render(opts RenderOpts) *Rendered {
 					}
 					b.line(t)
 				}
-				if m.Hidden {
+				if m.Hidden && m.HiddenArg != "" {
+					b.line("// @Hidden(" + m.HiddenArg + ")")
+				} else if m.Hidden {
 					b.line("// @Hidden")
 				}
 				if m.Deprecated {
@@ -409,7 +414,13 @@ func (p *Project) Render(opts RenderOpts) *Rendered {
 							sig.WriteString(", ")
 						}
 						start := runeLen(sig.String())
-						sig.WriteString(pr.GoName + " " + pr.Type.GoExpr(c.Pkg, q))
+						te := pr.Type.GoExpr(c.Pkg, q)
+						if m.GroupParams && i+1 < len(m.Params) && m.Params[i+1].Type.GoExpr(c.Pkg, q) == te {
+							// grouped field: the type follows the last name of the run
+							sig.WriteString(pr.GoName)
+						} else {
+							sig.WriteString(pr.GoName + " " + te)
+						}
 						mark("param/"+pr.GoName, ln, start, runeLen(sig.String()))
 					}
 					sig.WriteString(") ")
@@ -626,4 +637,11 @@ func (r *Rendered) WriteTo(root string) error {
 		}
 	}
 	return nil
+}
+
+func secDescr(s Security) string {
+	if s.Descr == "" {
+		return ""
+	}
+	return " " + s.Descr
 }
